@@ -90,6 +90,19 @@ pub fn check(case: &Case, out: &RunOutput) -> Verdict {
             vd.fail(format!("{}/panic", case.family.id()), format!("task {tag} panicked: {msg}"));
         }
     }
+    // an actor never ends unless something could have ended it: a stop request, its last strong handle
+    // going, the end of its stream, a failure that the case configures or injects, its parent's end, a
+    // registry operation that may have dropped the registry's entry, or the harness' teardown
+    for (a, av) in v.actors.iter().enumerate() {
+        if let Some((s, end)) = av.task_end {
+            if s < v.external_cause(a) && s < v.phase(crate::history::Phase::Teardown) && v.rt[a].origin != crate::history::Origin::Phantom {
+                vd.fail(
+                    format!("{}/ended_without_cause", case.family.id()),
+                    format!("actor {a} ended at {s} with {end:?} although nothing had asked it to (first possible cause: {})", if v.external_cause(a) == u64::MAX { "none".to_string() } else { v.external_cause(a).to_string() }),
+                );
+            }
+        }
+    }
     // inconsistencies noticed by the harness itself while it used a handle the library handed out
     for e in v.hist {
         if let crate::history::EvKind::Note(n) = &e.kind {
